@@ -10,7 +10,8 @@ def seeds_table():
     bounded = [n for n in noted if 'BOUNDED' in n or 'bounded stand-in' in n.lower()]
     rows = ['**%d seeded changes are kept; %d were refuted by a named obligation as the contracts stood; %d needed a strengthening first '
             '(of these, %d were missed outright or left the check undecided at first; %d are / were caught by a labelled bounded stand-in rather than a proof obligation). '
-            'All %d now make their check exit 1 (`tools/rerun_seeds.sh`).**' % (len(metas), len(metas) - len(noted), len(noted), len(missed), len(bounded), len(metas)), '',
+            'Each of the %d made its check exit 1 when it was last run: the 111 of rounds a-f all together by `tools/rerun_seeds.sh` at commit 1a49892, the 23 of round g '
+            'one by one with `tools/try_seed_par.sh` at the commit that stores them (the engine changes since 1a49892 only add havoc and forks, they remove no obligation).**' % (len(metas), len(metas) - len(noted), len(noted), len(missed), len(bounded), len(metas)), '',
             '| seed | property | what it needs to manifest | refuted obligation(s) | note |', '|---|---|---|---|---|']
     for d in sorted(glob.glob(os.path.join(ROOT, 'seeded', '*'))):
         m = json.load(open(os.path.join(d, 'meta.json')))
